@@ -173,44 +173,75 @@ func (i *Injector) injectSelfMonitor(cfg *config.Config) {
 }
 
 func (i *Injector) marshal(cfg *config.Config) ([]byte, error) {
-	bTokens := make([]string, 0)
-	password := make([]string, 0)
-
-	for _, w := range cfg.RemoteWriteConfigs {
-		if w.HTTPClientConfig.BearerToken != "" {
-			bTokens = append(bTokens, string(w.HTTPClientConfig.BearerToken))
-		}
-
-		if w.HTTPClientConfig.BasicAuth != nil && w.HTTPClientConfig.BasicAuth.Password != "" {
-			password = append(password, string(w.HTTPClientConfig.BasicAuth.Password))
-		}
-
-	}
-
-	for _, w := range cfg.RemoteReadConfigs {
-		if w.HTTPClientConfig.BearerToken != "" {
-			bTokens = append(bTokens, string(w.HTTPClientConfig.BearerToken))
-		}
-
-		if w.HTTPClientConfig.BasicAuth != nil && w.HTTPClientConfig.BasicAuth.Password != "" {
-			password = append(password, string(w.HTTPClientConfig.BasicAuth.Password))
-		}
-	}
-
 	gen, err := yaml.Marshal(&cfg)
 	if err != nil {
 		return nil, errors.Wrapf(err, "marshal config failed")
 	}
 
-	data := string(gen)
-	for _, token := range bTokens {
-		data = strings.Replace(data, "bearer_token: <secret>", fmt.Sprintf("bearer_token: %s", token), 1)
+	// every secret is marshaled as "<secret>", put the real values of all sections
+	// that prometheus still needs back to where they belong
+	root := yaml.MapSlice{}
+	if err := yaml.Unmarshal(gen, &root); err != nil {
+		return nil, errors.Wrapf(err, "unmarshal marshaled config")
 	}
 
-	for _, pd := range password {
-		data = strings.Replace(data, "password: <secret>", fmt.Sprintf("password: %s", pd), 1)
+	for idx, am := range cfg.AlertingConfig.AlertmanagerConfigs {
+		restoreClientSecrets(yamlChild(yamlChild(yamlChild(root, "alerting"), "alertmanagers"), idx), am.HTTPClientConfig)
 	}
-	return []byte(data), nil
+	for idx, w := range cfg.RemoteWriteConfigs {
+		node := yamlChild(yamlChild(root, "remote_write"), idx)
+		restoreClientSecrets(node, w.HTTPClientConfig)
+		if w.SigV4Config != nil {
+			restoreSecret(yamlChild(node, "sigv4"), "secret_key", string(w.SigV4Config.SecretKey))
+		}
+	}
+	for idx, r := range cfg.RemoteReadConfigs {
+		restoreClientSecrets(yamlChild(yamlChild(root, "remote_read"), idx), r.HTTPClientConfig)
+	}
+
+	return yaml.Marshal(root)
+}
+
+// yamlChild return the child of a yaml node by map key or list index, nil if not exist
+func yamlChild(node interface{}, key interface{}) interface{} {
+	switch n := node.(type) {
+	case yaml.MapSlice:
+		for _, item := range n {
+			if item.Key == key {
+				return item.Value
+			}
+		}
+	case []interface{}:
+		if idx, ok := key.(int); ok && idx < len(n) {
+			return n[idx]
+		}
+	}
+	return nil
+}
+
+func restoreSecret(node interface{}, key string, secret string) {
+	m, ok := node.(yaml.MapSlice)
+	if !ok || secret == "" {
+		return
+	}
+	for idx := range m {
+		if m[idx].Key == key {
+			m[idx].Value = secret
+		}
+	}
+}
+
+func restoreClientSecrets(node interface{}, c config_util.HTTPClientConfig) {
+	restoreSecret(node, "bearer_token", string(c.BearerToken))
+	if c.BasicAuth != nil {
+		restoreSecret(yamlChild(node, "basic_auth"), "password", string(c.BasicAuth.Password))
+	}
+	if c.Authorization != nil {
+		restoreSecret(yamlChild(node, "authorization"), "credentials", string(c.Authorization.Credentials))
+	}
+	if c.OAuth2 != nil {
+		restoreSecret(yamlChild(node, "oauth2"), "client_secret", string(c.OAuth2.ClientSecret))
+	}
 }
 
 func (i *Injector) inject() (err error) {
